@@ -1027,7 +1027,7 @@ class PatternConverter(t.Generic[t.AnyStr], Converter[re.Pattern[t.AnyStr]]):
             return WrongTypeError(self.expected(), val)
         try:
             re.compile(s)
-        except re.error as e:
+        except Exception as e:
             tb = e.__traceback__.tb_next  # type: ignore
             tb = traceback.TracebackException(type(e), e, tb)
             return WrongTypeError(self.expected(), val, tb)
